@@ -17,7 +17,9 @@ prop("C18", level="proof", runtime=True,
                   "that aliasing case is outside the precondition and therefore not covered)",
                   "A1: velocity formula treated as an arbitrary real; clamp comparisons are exact",
                   "lb <= ub for every parameter"],
-     not_decided=["update_global_best (bounded leader set) depends on the crowding_distance / sorting contracts: see evidence"])
+     not_decided=["OMOPSO.update_global_best (leader archive bound for OMOPSO): attempted, 123 of 137 obligations discharged, not under "
+                  "contract; SMPSO / PSOGA.update_global_best are proved; the OMOPSO leader bound is covered by the bounded whole-run "
+                  "scenarios of C09 only"])
 prop("C19", level="proof", runtime=True,
      assumptions=["A2: the objective and the predict hook are arbitrary user code that returns a fresh list (or None) and does not "
                   "touch the surrogate's counters or data; the ghost call log is part of that assumed contract",
@@ -111,8 +113,8 @@ prop("C08", level="proof", runtime=True,
                   "heap-dependent spec functions keep their value on pre-existing arguments when a loop only adds objects (footprint)"],
      not_decided=["design-of-experiment generators (LHS, Halton, uniform grid, ...): see C12; only gen_vector / gen_number "
                   "(RandomGenerator's source of numbers) is proved",
-                  "'every design evaluated during a run': the steps are proved (generate, mutators, SBX, update_position, "
-                  "gen_vector re-rolls) but their orchestration in NSGAII / EpsMOEA / OMOPSO / SMPSO / PSOGA.run is a bounded "
+                  "'every design evaluated during a run': the steps are proved (generate, mutators, SBX, update_position, the OMOPSO / SMPSO "
+                  "turbulence steps, gen_vector re-rolls) but their orchestration in NSGAII / EpsMOEA / OMOPSO / SMPSO / PSOGA.run is a bounded "
                   "run-time check on real runs (objective records every vector it is handed)",
                   "exact float rounding of clip results (clip returns one of its arguments, so it is exact) vs. gen_number's 1e-12 rounding: over the reals"])
 prop("C09", level="other", runtime=True,
